@@ -128,8 +128,11 @@ def main():
     # a hard abort / panic of the implementation is a concrete observation in its own right
     for l in run_cases:
         cid, _, body = l.partition(" ")
-        if impl_out.get(cid) in ("abort",) and P.get("abort_is_violation"):
-            oracle_fails.append((body, "abort"))
+        o = impl_out.get(cid, "")
+        if P.get("abort_is_violation") and (o in ("abort", "timeout") or o.startswith("panic")):
+            # the real code panicked / aborted / hung on this input: concrete in its own right
+            if not model_out.get(cid, "").startswith(("panic", "abort")):
+                oracle_fails.append((body, "implementation " + o.split(" ")[0] + "s on this input"))
 
     # ---- known findings
     kf_lines = set()
